@@ -26,6 +26,11 @@ def main():
     name = os.path.basename(sdir.rstrip("/"))
     wt = "/tmp/seval_%s_%d" % (name, os.getpid())
     evid = "/tmp/seval_evid_%s_%d" % (name, os.getpid())
+    # evaluations share one cargo target directory: they must not overlap (cargo decides freshness by mtime, a scratch tree created
+    # while another evaluation is still building would be taken for already built — seen once as a spurious "miss")
+    import fcntl
+    lock = open("/tmp/seval_target.lock", "w")
+    fcntl.flock(lock, fcntl.LOCK_EX)
     subprocess.run(["git", "-C", "/repo", "worktree", "add", "-q", "--detach", wt, "HEAD"], check=True)
     results = {}
     try:
